@@ -105,10 +105,17 @@ def perturbations(rng, d):
                         w4[i] = e[:-1] + ('q' if e[-1] != 'q' else 'r')
                         out.append(('value', q(w4), None, key))
                 elif isinstance(e, int):
+                    # numbers queried as text: every element, or a single one (numpy then makes the whole query a
+                    # string array) - a mismatch, never an exception
+                    out.append(('type', q([str(x) for x in v]), None, key))
+                    wt = list(v)
+                    wt[i] = 'five'
+                    out.append(('type', q([str(x) for x in wt]), None, key))
                     w[i] = e + rng.choice([-1, 1])
                     big = abs(w[i]) >= 10 ** 5 + 10
                     out.append(('value-within-tol' if big else 'value', q(w), None, key))
                 else:
+                    out.append(('type', q([repr(x) for x in v]), None, key))
                     w[i] = e + 1.0
                     small = abs(w[i]) >= 10 ** 5 + 10
                     out.append(('value-within-tol' if small else 'value', q(w), None, key))
